@@ -131,7 +131,18 @@ func (e *Engine) RunCheck(opt CheckOpts) *CheckResult {
 		// only decide what this property needs
 		var keep []*Obligation
 		for _, o := range ctx.Obls {
-			if counts(opt.Prop, o) || o.Kind == "canary" {
+			// `props Cxx` on a contract: the property depends on everything this function guarantees
+			// (e.g. log matching on the segmented log returning what was stored), so all its
+			// obligations count for Cxx as well
+			viaProps := false
+			if ctx.C != nil && o.Kind != "canary" {
+				for _, p := range ctx.C.Props {
+					if p == opt.Prop {
+						viaProps = true
+					}
+				}
+			}
+			if counts(opt.Prop, o) || viaProps || o.Kind == "canary" {
 				keep = append(keep, o)
 			}
 		}
